@@ -9,6 +9,7 @@ import Mathlib.Tactic.LinearCombination
 import Mathlib.Tactic.Ring
 import Mathlib.Tactic.Linarith
 import Mathlib.Algebra.Order.Field.Rat
+import CBV.Gen.TC20
 
 namespace CBV.C20
 
